@@ -195,6 +195,7 @@ def clap_args(body):
                 ident = d["args"][0][1].strip('"')
         long = act = None
         delim = None
+        rel = []
         cur = t
         for _ in range(60):
             nxt = [u for u in users.get(cur["d"][0], []) if (u["ncallee"] or "").startswith("clap_builder::builder::arg::Arg::") or (u["ncallee"] or "").endswith("Command::arg")]
@@ -216,10 +217,25 @@ def clap_args(body):
                         delim = d["args"][0][1].strip("'")
                     else:
                         delim = "?"
+            for kind in ("conflicts_with", "conflicts_with_all", "requires", "requires_all", "requires_if", "requires_ifs", "required_unless_present",
+                         "required_unless_present_any", "required_unless_present_all", "overrides_with", "overrides_with_all", "exclusive", "group", "groups"):
+                if nc.endswith("Arg::" + kind):
+                    tgt = None
+                    if len(cur["args"]) > 1:
+                        a1 = cur["args"][1]
+                        if a1[0] == "c":
+                            tgt = a1[1].strip('"')
+                        else:
+                            d = defs.get(src(op_local(a1)))
+                            if d is not None and d["args"] and d["args"][0][0] == "c":
+                                tgt = d["args"][0][1].strip('"')
+                            else:
+                                tgt = "?"
+                    rel.append((kind, tgt))
             if nc.endswith("Arg::action"):
                 al = src(op_local(cur["args"][1])) if op_local(cur["args"][1]) is not None else None
                 if al in aggs:
                     act = aggs[al]["variant"]
         if long:
-            out[long] = {"id": ident, "action": act, "delimiter": delim}
+            out[long] = {"id": ident, "action": act, "delimiter": delim, "relations": rel}
     return out
